@@ -7,6 +7,8 @@ named check to report a VIOLATION (mutants), or to stay silent (neutral edits).
   selftest/mutate.py validate [-j N] [name ...]   confirm mutants compile and pass the repository's own tests
   selftest/mutate.py patch <name>                 print the mutant as a unified diff
 
+$VERIF_ONLY_PROPS=C06,C07 restricts a run to those checks (re-sweeping after a rule change).
+
 Scratch copies live under $VERIF_SCRATCH (default /tmp/verif-selftest) and are removed after use.
 """
 import concurrent.futures as cf
@@ -77,7 +79,10 @@ def run_one(args):
     try:
         apply_edits(d, m)
         res = {}
+        only = set(filter(None, os.environ.get('VERIF_ONLY_PROPS', '').split(',')))
         for prop in m['props']:
+            if only and prop not in only:
+                continue
             env = dict(os.environ, VERIF_REPO=d, VERIF_EVIDENCE_DIR=os.path.join(d, '.evidence'))
             r = subprocess.run([os.path.join(VERIF, 'check'), prop], env=env, stdout=subprocess.PIPE,
                                stderr=subprocess.STDOUT, text=True)
